@@ -81,27 +81,65 @@ Check (C01_payload_unknown_field_skipped :
     decode_payload ([10; len key] ++ key ++ [24; v] ++ [18; len sg] ++ sg)
     = Some (mkPayload (Some key) (Some sg))).
 Check (C01_tls_accept_sound :
-  forall on_curve verify x spki expected p,
-    tls_accept on_curve verify x spki expected = Accept p ->
-    exists kb sg k,
-      x = TlsExt kb sg /\ decode_pubkey on_curve kb = KeyOk k /\
+  forall on_curve verify l spki expected p,
+    tls_accept on_curve verify l spki expected = Accept p ->
+    exists l1 kb sg l2 k,
+      l = l1 ++ XP2p (Some (kb, sg)) :: l2 /\ Forall ignorable l1 /\ Forall ignorable l2 /\
+      decode_pubkey on_curve kb = KeyOk k /\
       verify k (TLS_PREFIX ++ spki) sg = true /\
       p = peer_id_of_key k /\ (expected = None \/ expected = Some p)).
 Check (C01_tls_accept_complete :
-  forall on_curve verify kb sg k spki expected,
+  forall on_curve verify l1 kb sg l2 k spki expected,
+    Forall ignorable l1 -> Forall ignorable l2 ->
     decode_pubkey on_curve kb = KeyOk k -> verify k (TLS_PREFIX ++ spki) sg = true ->
     (expected = None \/ expected = Some (peer_id_of_key k)) ->
-    tls_accept on_curve verify (TlsExt kb sg) spki expected = Accept (peer_id_of_key k)).
+    tls_accept on_curve verify (l1 ++ XP2p (Some (kb, sg)) :: l2) spki expected = Accept (peer_id_of_key k)).
 Check (C01_tls_dialed_mismatch :
-  forall on_curve verify x spki p q,
-    tls_verify on_curve verify x spki = Accept p -> q <> p ->
-    tls_accept on_curve verify x spki (Some q) = Reject EMismatch).
+  forall on_curve verify l spki p q,
+    tls_verify on_curve verify l spki = Accept p -> q <> p ->
+    tls_accept on_curve verify l spki (Some q) = Reject EMismatch).
+Check (C01_tls_critical_or_duplicate_refused :
+  forall on_curve verify spki expected p,
+    (forall l, In (XOther true) l -> tls_accept on_curve verify l spki expected <> Accept p) /\
+    (forall la c1 lb c2 lc,
+       tls_accept on_curve verify (la ++ XP2p c1 :: lb ++ XP2p c2 :: lc) spki expected <> Accept p)).
 Check (C01_tls_binding :
   forall (on_curve : bytes -> bool) (verify : bytes -> bytes -> bytes -> bool),
     (forall pk m m' sg, verify pk m sg = true -> verify pk m' sg = true -> m = m') ->
-    forall x spki spki' e' p',
-      tls_accept on_curve verify x spki' e' = Accept p' -> spki <> spki' ->
-      forall e, tls_accept on_curve verify x spki e = Reject ETlsIssuer).
+    forall l spki spki' e' p',
+      tls_accept on_curve verify l spki' e' = Accept p' -> spki <> spki' ->
+      forall e, tls_accept on_curve verify l spki e = Reject ETlsIssuer).
+Check (C01_every_dial_checked :
+  forall on_curve verify t addr_peer dialed ev p,
+    dial_outcome on_curve verify t addr_peer dialed ev = Some (Accept p) ->
+    p = dialed /\ authentic on_curve verify ev p).
+Check (C01_transport_and_manager_checks :
+  forall on_curve verify,
+    (forall t dialed ev, t <> TWebRtc ->
+       dial_outcome on_curve verify t (Some dialed) dialed ev =
+       transport_verdict on_curve verify t (Some dialed) ev) /\
+    (forall pb rs p dialed,
+       verify_identity on_curve verify pb rs = Accept p -> dialed <> p ->
+       transport_verdict on_curve verify TTcp None (EvNoise pb rs) = Some (Accept p) /\
+       dial_outcome on_curve verify TTcp None dialed (EvNoise pb rs) = Some (Reject EMismatch)) /\
+    (forall t addr_peer dialed ev r,
+       dial_outcome on_curve verify t addr_peer dialed ev = Some r ->
+       t = TTcp \/ (addr_peer <> None /\ (t = TWebSocket \/ t = TQuic)))).
+Check (C01_inbound_authentic :
+  forall on_curve verify t ev p,
+    inbound_outcome on_curve verify t ev = Some (Accept p) -> authentic on_curve verify ev p).
+Check (C01_handshake_framing :
+  (forall b rest, len b < 65536 -> read_frame (frame b ++ rest) = Some (b, rest)) /\
+  (forall s b r, bytes_ok s = true -> read_frame s = Some (b, r) -> s = frame b ++ r /\ len b < 65536) /\
+  (forall s m1 m3 rest, bytes_ok s = true -> listener_reads s = Some (m1, m3, rest) ->
+     s = frame m1 ++ frame m3 ++ rest) /\
+  (forall m1 m3 rest, len m1 < 65536 -> len m3 < 65536 ->
+     listener_reads (frame m1 ++ frame m3 ++ rest) = Some (m1, m3, rest))).
+Check (C01_honest_message_sizes :
+  forall sign idk static,
+    length idk = 32%nat -> length (sign idk (DOMAIN ++ static)) = 64%nat ->
+    length (honest_payload sign idk static) = 104%nat /\
+    msg1_len = 32 /\ msg2_len 104 = 200 /\ msg3_len 104 = 168).
 Check (C01_binding :
   forall (on_curve : bytes -> bool) (verify : bytes -> bytes -> bytes -> bool),
     (forall pk m m' sg, verify pk m sg = true -> verify pk m' sg = true -> m = m') ->
